@@ -68,8 +68,16 @@ def parseTable (s : String) : Option (List (Bytes × Option Bytes)) :=
     | _ => none
 
 
-def reqFields (u : UriImpl) (st : ReqState u) : String :=
-  s!"m={hex st.method} t={hex (u.display st.target)} h={showHeaders st.headers} b={hex st.body}"
+def uriStruct (u : Uri) : String :=
+  let o (x : Option Bytes) : String := match x with | some v => hex v | none => "-"
+  let a : String := match u.authority with
+    | some a => s!"{o a.userinfo},{hex a.host},{match a.port with | some p => toString p | none => "-"}"
+    | none => "-"
+  s!"s={o u.scheme};a={a};p={"/".intercalate (u.path.map hex)}|{u.path.length};q={o u.query};f={o u.fragment}"
+
+/-- the driver runs the concrete `rhymuri` instance, so the target can be shown component by component -/
+def reqFields (st : ReqState rhymuriImpl) : String :=
+  s!"m={hex st.method} t={hex (Rhymuri.display st.target)} u={uriStruct st.target} h={showHeaders st.headers} b={hex st.body}"
 def respFields (st : RespState) (extra : Bytes := []) : String :=
   s!"c={st.statusCode} p={hex st.reasonPhrase} h={showHeaders st.headers} b={hex st.body} x={hex (st.trailer ++ extra)}"
 
@@ -77,32 +85,32 @@ def joinAcc (acc : List String) : String := " ".intercalate acc.reverse
 
 /-- the documented calling protocol, on the instrumented model (`Request.parse`: both trees, reservation log).
     Result: text, reservation log, final state when complete -/
-def runReq (u : UriImpl) (cfg : ReqCfg) : List Bytes → ReqState u → Bytes → List String → List Reserve →
-    String × List Reserve × Option (ReqState u)
-  | [], s, _, acc, rs => (joinAcc acc ++ " | " ++ reqFields u s, rs, none)
+def runReq (cfg : ReqCfg) : List Bytes → ReqState rhymuriImpl → Bytes → List String → List Reserve →
+    String × List Reserve × Option (ReqState rhymuriImpl)
+  | [], s, _, acc, rs => (joinAcc acc ++ " | " ++ reqFields s, rs, none)
   | d :: ds, s, pending, acc, rs =>
     let buf := pending ++ d
-    match Request.parse u cfg s buf with
+    match Request.parse rhymuriImpl cfg s buf with
     | .err c => (joinAcc (s!"E:{cat c}" :: acc), rs, none)
     | .panic k => (joinAcc (s!"P:{pk k}" :: acc), rs, none)
     | .ok o =>
       match o.status with
-      | .complete => (joinAcc (s!"C,{o.consumed}" :: acc) ++ " | " ++ reqFields u o.st, rs ++ o.reserves, some o.st)
-      | .incomplete => runReq u cfg ds o.st (buf.drop o.consumed) (s!"I,{o.consumed}" :: acc) (rs ++ o.reserves)
+      | .complete => (joinAcc (s!"C,{o.consumed}" :: acc) ++ " | " ++ reqFields o.st, rs ++ o.reserves, some o.st)
+      | .incomplete => runReq cfg ds o.st (buf.drop o.consumed) (s!"I,{o.consumed}" :: acc) (rs ++ o.reserves)
 
 def failStr : Fail → String
   | .err c => s!"E:{cat c}" | .panic k => s!"P:{pk k}" | .oof => "OOF"
 
 /-- the same protocol through the generic `Sys` instance (current tree) that the theorems are stated over -/
-def runReqSys (u : UriImpl) (cfg : ReqCfg) : List Bytes → ReqState u → Bytes → List String →
-    String × Option (ReqState u)
-  | [], s, _, acc => (joinAcc acc ++ " | " ++ reqFields u s, none)
+def runReqSys (cfg : ReqCfg) : List Bytes → ReqState rhymuriImpl → Bytes → List String →
+    String × Option (ReqState rhymuriImpl)
+  | [], s, _, acc => (joinAcc acc ++ " | " ++ reqFields s, none)
   | d :: ds, s, pending, acc =>
     let buf := pending ++ d
-    match (requestSys u cfg).parse s buf with
+    match (requestSys rhymuriImpl cfg).parse s buf with
     | .fail f => (joinAcc (failStr f :: acc), none)
-    | .ok .complete st n => (joinAcc (s!"C,{n}" :: acc) ++ " | " ++ reqFields u st, some st)
-    | .ok .incomplete st n => runReqSys u cfg ds st (buf.drop n) (s!"I,{n}" :: acc)
+    | .ok .complete st n => (joinAcc (s!"C,{n}" :: acc) ++ " | " ++ reqFields st, some st)
+    | .ok .incomplete st n => runReqSys cfg ds st (buf.drop n) (s!"I,{n}" :: acc)
 
 def runResp (cfg : RespCfg) : List Bytes → RespState → Bytes → List String → List Reserve →
     String × List Reserve × Option RespState
@@ -143,10 +151,10 @@ def parseHeaders (s : String) : Option (List Header) :=
 
 /-- request op on the current tree: the `Sys` instance decides, the instrumented model supplies the
     reservation log; both descriptions of the same code must agree -/
-def reqOp (u : UriImpl) (cfg : ReqCfg) (ds : List Bytes) : String × Option (ReqState u) :=
-  let (b, rs, st) := runReq u cfg ds (Request.new u) [] [] []
+def reqOp (cfg : ReqCfg) (ds : List Bytes) : String × Option (ReqState rhymuriImpl) :=
+  let (b, rs, st) := runReq cfg ds (Request.new rhymuriImpl) [] [] []
   if cfg.tree.repaired then
-    let (a, _) := runReqSys u cfg ds (Request.new u) [] []
+    let (a, _) := runReqSys cfg ds (Request.new rhymuriImpl) [] []
     if a = b then (b ++ " #r=" ++ showReserves rs, st) else ("MODEL-INCONSISTENT " ++ a ++ " <> " ++ b, none)
   else (b ++ " #r=" ++ showReserves rs, st)
 
@@ -166,7 +174,7 @@ def step (toks : List String) : String :=
   | ["REQ", tree, ov, rl, hl, mx, ds] =>
     match optNat rl, optNat hl, optNat mx, (ds.splitOn "|").mapM unhex with
     | some rl, some hl, some mx, some ds =>
-      (reqOp rhymuriImpl { rl := rl, hl := hl, max := mx, ov := ov = "1", tree := ⟨tree = "1"⟩ } ds).1
+      (reqOp { rl := rl, hl := hl, max := mx, ov := ov = "1", tree := ⟨tree = "1"⟩ } ds).1
     | _, _, _, _ => "bad-op"
   | ["RESP", tree, ov, hl, ds] =>
     match optNat hl, (ds.splitOn "|").mapM unhex with
@@ -176,12 +184,12 @@ def step (toks : List String) : String :=
     match optNat rl, optNat hl, optNat mx, (ds.splitOn "|").mapM unhex with
     | some rl, some hl, some mx, some ds =>
       let cfg : ReqCfg := { rl := rl, hl := hl, max := mx, ov := ov = "1", tree := ⟨tree = "1"⟩ }
-      match reqOp rhymuriImpl cfg ds with
+      match reqOp cfg ds with
       | (first, none) => first
       | (first, some st) =>
         match Request.generate rhymuriImpl cfg st with
         | none => first ++ " || FOLD"
-        | some g => first ++ " || OK " ++ hex g ++ " || " ++ (reqOp rhymuriImpl cfg [g]).1
+        | some g => first ++ " || OK " ++ hex g ++ " || " ++ (reqOp cfg [g]).1
     | _, _, _, _ => "bad-op"
   | ["RTRESP", tree, ov, hl, ds] =>
     match optNat hl, (ds.splitOn "|").mapM unhex with
@@ -224,11 +232,11 @@ def step (toks : List String) : String :=
       | some uri =>
         let cfg : ReqCfg := { rl := none, hl := hl, max := none, ov := true, tree := ⟨true⟩ }
         let st : ReqState rhymuriImpl := { phase := .requestLine, totalBytes := 0, method := m, target := uri, headers := hs, body := body }
-        let shown := "V t=" ++ hex (Rhymuri.display uri)
+        let shown := "V t=" ++ hex (Rhymuri.display uri) ++ " u=" ++ uriStruct uri
         match Request.generate rhymuriImpl cfg st with
         | none => shown ++ " || FOLD"
         | some g =>
-          match reqOp rhymuriImpl cfg [g] with
+          match reqOp cfg [g] with
           | (p, none) => shown ++ " || OK " ++ hex g ++ " || " ++ p
           | (p, some st2) =>
             match Request.generate rhymuriImpl cfg st2 with
